@@ -179,6 +179,26 @@ def run(prop, tier, replay=None):
 
     scenarios = []
     mc_states = mc_trans = 0
+    ticker = {}
+    tick_thread = None
+    if prop == "C14" and not replay:
+        # fairness of CleanupTick on the real Run loop and its real tick source, in real time (about one tick period),
+        # while TLC works
+        import threading
+
+        def tick():
+            try:
+                w2 = os.path.join(work, "ticker")
+                os.makedirs(w2, exist_ok=True)
+                rc_, out_, wall_ = vlib.go_test(w2, "node", fp.PKG, "TestVerifProcessorTicker", fp.INJECT,
+                                                env={"VERIF_TICKER": "1", "VERIF_SEED": seed}, timeout=300)
+                import re
+                m = re.search(r"VERIF-TICKER cleanup_ran=(true|false) after=([0-9.]+)s limit=([0-9.]+)s", out_)
+                ticker.update({"ran": m.group(1) == "true", "after_s": float(m.group(2)), "limit_s": float(m.group(3))} if m else {"error": out_[-3000:]})
+            except Exception as e:  # noqa: BLE001
+                ticker["error"] = "%s: %s" % (type(e).__name__, e)
+        tick_thread = threading.Thread(target=tick)
+        tick_thread.start()
     if replay:
         rp = json.load(open(replay))
         scenarios = [v["detail"]["scenario"] for v in rp.get("violations", []) if v.get("detail", {}).get("scenario")]
@@ -187,7 +207,7 @@ def run(prop, tier, replay=None):
     else:
         # 1. the design: exhaustive TLC on the bounded model
         for cfg in mcs:
-            r = vlib.tlc_must_pass(work, "MC_Processor", cfg, workers=vlib.NCPU, timeout=3000, heap="24g")
+            r = vlib.tlc_must_pass(work, "MC_Processor", cfg, workers=vlib.NCPU, timeout=3000, heap="16g")
             mc_states += r["distinct"]
             mc_trans += r["generated"]
             print("TLC %s: %d distinct states, %d transitions, depth %d, %.0fs" % (cfg, r["distinct"], r["generated"], r["depth"], r["wall_s"]))
@@ -216,6 +236,8 @@ def run(prop, tier, replay=None):
         return crashed(prop, tier, c, t0, mc_states, mc_trans, len(scenarios))
     lslow = {ln["t"] for ln in llines if ln["ev"] == "Slow"}
     llines = [ln for ln in llines if ln["t"] not in lslow]
+    if loop_scs and not llines:
+        raise vlib.Broken("run-loop mode recorded no usable line for %d histories (all discarded as slow?)" % len(loop_scs))
     lrejs, lr = fp.validate(work, llines, prop + "L")
     print("run-loop mode: %d histories (%d lines) through Processor.Run in %.1fs; trace validation %d states, %d rejected line(s)"
           % (len(loop_scs), len(llines), lwall, lr["distinct"], len(lrejs)))
@@ -271,6 +293,15 @@ def run(prop, tier, replay=None):
                               "tlc": rj.get("tlc"), "scenario": sc, "mode": "run-loop"})
         else:
             others["%s:%s" % ("+".join(sorted(props)), sig)] += 1
+    if tick_thread is not None:
+        tick_thread.join()
+        if "error" in ticker:
+            raise vlib.Broken("ticker fairness test did not complete:\n%s" % ticker["error"])
+        print("tick source under steady traffic: cleanup pass %s after %.1fs (limit %.0fs)" % ("ran" if ticker["ran"] else "DID NOT RUN", ticker["after_s"], ticker["limit_s"]))
+        if not ticker["ran"]:
+            verdict.add("ticker/no-cleanup-pass-under-steady-traffic",
+                        {"why": "with gossip arriving every 200 ms the Run loop made no cleanup pass within %.0fs (tick period 30 s): retries and expiry never happen" % ticker["limit_s"],
+                         "measured": ticker})
     rc = verdict.finish()
     for k, v in others.items():
         print("note: %d rejected line(s) speak to another property (%s); see that property's check" % (v, k))
@@ -328,6 +359,7 @@ def run(prop, tier, replay=None):
         "handler_calls": dict(acts), "effects_observed": dict(effects), "guardian_set_sizes": {str(k): v for k, v in sorted(setsizes.items())},
         "scenario_sources": dict(Counter(sc.get("src") for sc in scenarios)),
         "rejected_lines_this_property": len(verdict.items), "rejected_lines_other_properties": dict(others),
+        "tick_source_fairness_realtime": ticker,
         "known_findings_matched": getattr(verdict, "n_known", 0),
         "exhaustive": False,
     }
